@@ -1016,6 +1016,17 @@ EXPECTED_CLASS = {'tensor': (NumpyTensor, NumpyTensorSpace),
                   'pspace': (ProductSpaceElement, ProductSpace)}
 
 
+def _weighting_kept(got, own):
+    """Same weighting; array weightings (which compare by identity) may
+    also hold the same values converted to the result precision."""
+    if got == own:
+        return True
+    ga, oa = getattr(got, 'array', None), getattr(own, 'array', None)
+    return (ga is not None and oa is not None and ga.shape == oa.shape and
+            got.exponent == own.exponent and
+            bool(np.array_equal(ga, oa.astype(ga.dtype))))
+
+
 def _partition_axes(space):
     """(min, max, grid vector) per axis of a discretized space."""
     part = space.partition
@@ -1506,7 +1517,7 @@ def _compare_result(sig, desc, i, g, r, o_odl, o_ref, x, ops, kw, strata):
                             ''.format(g.space.exponent, sp.exponent))
         if flt and same_shape and method in ('__call__', 'legacy',
                                              'accumulate'):
-            if g.space.weighting != sp.weighting:
+            if not _weighting_kept(g.space.weighting, sp.weighting):
                 raise Violation(sig('weighting-kept', tail),
                                 'same shape, floating result: weighting {!r} '
                                 'instead of {!r}'.format(g.space.weighting,
